@@ -152,6 +152,13 @@ def class_level_mutables(ctx, rep, R, classes=None):
                             uses.append((fi, par, 'mutated in place'))
             # only attributes of the receiver kinds that are instances of this class matter; the
             # attribute name must be specific enough: require that some use exists
+            # a non-empty literal is a constant table: handing it to a callee is not sharing state;
+            # an EMPTY mutable class attribute exists to be filled
+            empty = (isinstance(st.value, (ast.List, ast.Set)) and not st.value.elts) or \
+                (isinstance(st.value, ast.Dict) and not st.value.keys) or \
+                (isinstance(st.value, ast.Call) and not st.value.args and not st.value.keywords)
+            if not empty:
+                uses = [u for u in uses if u[2] != 'handed out']
             if not uses:
                 continue
             n += 1
